@@ -7,6 +7,7 @@ func (s *Sim) preDelivery(m *txMeta) {
 	}
 	m.Shadow = nil
 	m.ModelAtShadow = s.Model.Clone()
+	m.DustBlacklistedAtShadow = s.EnvM.Blacklist[s.Env.Dust.String()]
 	s.orbDigest = digestStore(s.N.Ctx().KVStore(s.N.App.GetKey("orbiter")))
 	for _, p := range m.Pkts {
 		m.Shadow = append(m.Shadow, s.runShadows(p))
